@@ -19,7 +19,7 @@ class EmitPublic(CoreSummaries, Contract):
     """variants: the thread flag is absent / present before the call; the node has a loop / has none"""
     file = CORE
     qual = 'Stream.emit'
-    props = ['C03', 'C16', 'C19']
+    props = ['C02', 'C03', 'C16', 'C19']
     flag_present = False
     has_loop = True
     emit_may_raise = True
